@@ -361,12 +361,12 @@ Definition wok (extra : str) : bool :=
   forallb (fun c => (127 <? c) && negb (N.eqb c c_lq) && negb (N.eqb c c_rq)) extra.
 Definition wordy (W : char -> bool) (f : str) : bool := match f with [] => false | _ => forallb W f end.
 (* consistency of the field oracles with the backend's patterns: field_escape_pattern matches every
-   backslash, possibly quote characters, nothing else; field_quote_pattern = ^\w+\Z negated *)
+   backslash and closing delimiter, possibly quote characters, nothing else; field_quote_pattern = ^\w+\Z negated *)
 Fixpoint pos_ok (ps : list nat) (i : nat) (f : str) : bool :=
   match f with
   | [] => true
   | c :: f' =>
-      (if N.eqb c c_bs then existsb (Nat.eqb i) ps
+      (if N.eqb c c_bs || N.eqb c c_rq then existsb (Nat.eqb i) ps
        else if N.eqb c c_sq then true else negb (existsb (Nat.eqb i) ps)) && pos_ok ps (S i) f'
   end.
 Definition fo_ok (W : char -> bool) (f : str) (fo : foracle) : bool :=
